@@ -76,6 +76,8 @@ def gen_library(rng, string_mode=False):
     hdr += "enum E0 { e_a = 0, e_b = 5, e_c = -2 };\n"
     hdr += "extern std::vector<std::string> g_trace;\nextern unsigned long long g_state;\nvoid tr(const char *fn, long long id, std::initializer_list<long double> args);\n"
     hdr += "class Payload {\n__published:\n  Payload(int v);\n  int get() const;\npublic:\n  std::string text;\n  int v;\n};\n"
+    hdr += "template<class T> class Box {\n__published:\n  Box(T v) : _v(v) {}\n  T get() const { return _v; }\n  void set(T v) { _v = v; }\n  T _v;\n};\ntypedef Box<int> BoxI;\n"
+    hdr += "namespace geo { class Pt {\n__published:\n  Pt(int x) : _x(x) {}\n  int norm() const { return _x * _x; }\n  int _x;\n}; }\n"
     impl = '#include "lib.h"\n#include <cstdio>\nstd::vector<std::string> g_trace;\nunsigned long long g_state = 17;\n'
     impl += ('void tr(const char *fn, long long id, std::initializer_list<long double> args) {\n  std::string s = fn; char b[64]; snprintf(b, sizeof b, " #%lld", id % 100); s += b;\n'
              '  for (long double a : args) { snprintf(b, sizeof b, " %.6Lg", a); s += b; }\n  g_trace.push_back(s);\n}\n')
@@ -107,7 +109,11 @@ def gen_library(rng, string_mode=False):
         hdr += "class %s%s {\n__published:\n  %s(int seed);\n  virtual ~%s();\n" % (cname, (" : public " + base) if base else "", cname, cname)
         for m in ms:
             hdr += "  " + m.decl() + "\n"
-        hdr += "  int _pub%d;\npublic:\n  unsigned long long _s;\n  long long _id;\n};\n" % ci
+        hdr += "  int operator + (int k) const;\n  bool operator == (const %s &o) const;\n  %s &operator += (int k);\n  int operator () (int a, int b) const;\n  int operator [] (int i) const;\n" % (cname, cname)
+        hdr += "  operator int () const;\n"
+        hdr += "  class Inner%d {\n  __published:\n    Inner%d(int q);\n    int twice() const;\n    int _q;\n  };\n" % (ci, ci)
+        hdr += "  BoxI make_box(int v) const;\n  int read_box(const BoxI &b) const;\n  geo::Pt make_pt(int v) const;\n  int read_pt(const geo::Pt &p) const;\n"
+        hdr += "  int _pub%d;\npublic:\n  int pubonly%d(int a);\n  unsigned long long _s;\n  long long _id;\n};\n" % (ci, ci)
         impl += "%s::%s(int seed) : %s_pub%d(seed * 3), _s((unsigned long long)seed * 7919ULL + %d), _id(seed) {}\n%s::~%s() {}\n" % (
             cname, cname, (base + "(seed), ") if base else "", ci, ci, cname, cname)
         for k, m in enumerate(ms):
@@ -132,8 +138,24 @@ def gen_library(rng, string_mode=False):
                 impl += "%s {\n  tr(\"%s::mref\", _id, {(long double)p.v});\n  p.v += 11; p.text += \"!\";\n  _s += 1;\n  return p.v;\n}\n" % (sig, cname)
             elif m.kind == "ptr":
                 impl += "%s {\n  tr(\"%s::ptr\", _id, {(long double)(p ? p->v : -1)});\n  if (p) { p->v *= 2; }\n  return p ? p->v : -1;\n}\n" % (sig, cname)
-        classes.append({"name": cname, "base": base, "methods": ms, "field": "_pub%d" % ci})
+        impl += ("int %s::operator + (int k) const { tr(\"%s::operator+\", _id, {(long double)k}); return (int)(_s %% 1000ULL) + k; }\n"
+                 "bool %s::operator == (const %s &o) const { return _s == o._s; }\n"
+                 "%s &%s::operator += (int k) { tr(\"%s::operator+=\", _id, {(long double)k}); _s += (unsigned long long)(long long)k; return *this; }\n"
+                 "int %s::operator () (int a, int b) const { return (int)(_s %% 100ULL) + a * 7 + b; }\n"
+                 "int %s::operator [] (int i) const { return (int)(_s %% 50ULL) * 3 + i; }\n"
+                 "%s::operator int () const { return (int)(_s %% 30011ULL); }\n") % (cname, cname, cname, cname, cname, cname, cname, cname, cname, cname)
+        impl += "%s::Inner%d::Inner%d(int q) : _q(q) {}\nint %s::Inner%d::twice() const { return _q * 2 + %d; }\n" % (cname, ci, ci, cname, ci, ci)
+        impl += ("BoxI %s::make_box(int v) const { return BoxI(v + (int)(_s %% 7ULL)); }\nint %s::read_box(const BoxI &b) const { return b.get() * 3; }\n"
+                 "geo::Pt %s::make_pt(int v) const { return geo::Pt(v - (int)(_s %% 5ULL)); }\nint %s::read_pt(const geo::Pt &p) const { return p.norm() + 1; }\n") % (cname, cname, cname, cname)
+        impl += "int %s::pubonly%d(int a) { tr(\"%s::pubonly\", _id, {(long double)a}); _s += 3; return a + %d; }\n" % (cname, ci, cname, ci)
+        classes.append({"name": cname, "base": base, "methods": ms, "field": "_pub%d" % ci, "index": ci})
         methods += ms
+    last = classes[-1]["name"]
+    hdr += "class Side {\n__published:\n  Side(int q);\n  virtual ~Side();\n  virtual int side_val() const;\n  int _q;\n};\n"
+    hdr += "class Multi : public %s, public Side {\n__published:\n  Multi(int seed);\n  virtual int side_val() const;\n  int both() const;\n};\n" % last
+    impl += "Side::Side(int q) : _q(q) {}\nSide::~Side() {}\nint Side::side_val() const { return _q * 3; }\n"
+    impl += "Multi::Multi(int seed) : %s(seed), Side(seed + 100) {}\nint Multi::side_val() const { return _q * 5 + (int)(_s %% 11ULL); }\nint Multi::both() const { return _q + (int)(_s %% 13ULL); }\n" % last
+    multi = {"base": last}
     frees = []
     for k in range(rng.randrange(1, 3)):
         np = rng.randrange(1, 4)
@@ -146,7 +168,7 @@ def gen_library(rng, string_mode=False):
     hdr += "__begin_publish\n" + "".join(m.decl() + "\n" for m in frees) + "__end_publish\n#endif\n"
     for k, m in enumerate(frees):
         impl += "%s %s(%s) {\n%s\n}\n" % (m.ret, m.name, ", ".join("%s %s" % (t, n) for t, n, d in m.params), body(m, 900 + k))
-    return {"header": hdr, "impl": impl, "classes": classes, "frees": frees}
+    return {"header": hdr, "impl": impl, "classes": classes, "frees": frees, "multi": multi}
 
 
 WRAP = re.compile(r"/\*\n \* C wrapper for\n \* ([^\n]*)\n \*/\n([^\n]*)\n(_in\w+)\(([^)]*)\) \{", re.M)
@@ -156,8 +178,14 @@ def parse_wrappers(code):
     out = []
     for proto, ret, name, params in WRAP.findall(code):
         ps = [p.strip() for p in params.split(",")] if params.strip() and params.strip() != "void" else []
-        m = re.search(r"((?:\w+::)*~?\w+)\(", proto)
-        out.append({"proto": proto, "ret": ret.replace("static ", "").strip(), "name": name, "params": ps, "scoped": m.group(1) if m else None})
+        m = re.search(r"((?:\w+(?:< [^>]* >)?::)*~?\w+)\(", proto)
+        scoped = m.group(1) if m else None
+        mo = re.search(r"((?:\w+::)+)operator ?(\S+?)\(", proto)
+        if mo:
+            scoped = mo.group(1) + "operator" + mo.group(2)
+        elif proto.startswith("operator "):
+            scoped = "typecast " + proto.split("(")[0][len("operator "):].strip()
+        out.append({"proto": proto, "ret": ret.replace("static ", "").strip(), "name": name, "params": ps, "scoped": scoped})
     return out
 
 
@@ -167,7 +195,7 @@ def cmp_stmt(ret, tag, w, d):
     return 'chk("%s", (%s) == (%s));' % (tag, w, d)
 
 
-def gen_driver(lib, wrappers, rng, string_mode=False):
+def gen_driver(lib, wrappers, rng, string_mode=False, promiscuous=False):
     """C++ source that includes the generated code and compares each wrapper with the direct call"""
     out = ['#include "lib.h"', '#include <cstdio>', '#include <string>', '#include "o.cxx"',
            "static int failures = 0, checks = 0;",
@@ -257,13 +285,50 @@ def gen_driver(lib, wrappers, rng, string_mode=False):
                         if m.kind not in ("virtual", "label", "name"):
                             break
         # data member accessors
-        for w in wrappers:
-            mm = re.match(r"getter for int %s::%s" % (c["name"], c["field"]), w["proto"])
-            if mm:
-                out.append("  { %s ow(7), od(7); chk(\"getter %s\", %s(&ow) == od.%s); }" % (c["name"], c["field"], w["name"], c["field"]))
-            mm = re.match(r"setter for int %s::%s" % (c["name"], c["field"]), w["proto"])
-            if mm:
-                out.append("  { %s ow(7), od(7); %s(&ow, -123456); od.%s = -123456; chk(\"setter %s\", ow.%s == od.%s); }" % (c["name"], w["name"], c["field"], c["field"], c["field"], c["field"]))
+        cn, fld = c["name"], c["field"]
+        for w in by_scoped.get("%s::get%s" % (cn, fld), []):
+            out.append("  { %s ow(7), od(7); chk(\"getter %s\", %s(&ow) == od.%s); }" % (cn, fld, w["name"], fld))
+        for w in by_scoped.get("%s::set%s" % (cn, fld), []):
+            out.append("  { %s ow(7), od(7); %s(&ow, -123456); od.%s = -123456; chk(\"setter %s\", ow.%s == od.%s); }" % (cn, w["name"], fld, fld, fld, fld))
+        # operators, typecast, nested class, typedef'd template instantiation, namespace class
+        def first(scoped, pred=lambda w: True):
+            ws = [w for w in by_scoped.get(scoped, []) if pred(w)]
+            return ws[0] if ws else None
+        w = first("%s::operator+" % cn)
+        if w:
+            out.append("  { %s ow(9), od(9); size_t mark = g_trace.size(); chk(\"%s operator+\", %s(&ow, 5) == (od + 5)); trace_pair(\"%s operator+ trace\", mark); }" % (cn, cn, w["name"], cn))
+        w = first("%s::operator==" % cn)
+        if w:
+            out.append("  { %s a(9), b(9), c2(10); chk(\"%s operator==\", %s(&a, &b) == (a == b) && %s(&a, &c2) == (a == c2)); }" % (cn, cn, w["name"], w["name"]))
+        w = first("%s::operator+=" % cn)
+        if w:
+            out.append("  { %s ow(9), od(9); %s *r = %s(&ow, 4); od += 4; chk(\"%s operator+= returns its object and updates it\", r == &ow && ow._s == od._s); }" % (cn, cn, w["name"], cn))
+        w = first("%s::operator()" % cn)
+        if w:
+            out.append("  { %s ow(9), od(9); chk(\"%s operator()\", %s(&ow, 2, 3) == od(2, 3)); }" % (cn, cn, w["name"]))
+        w = first("%s::operator[]" % cn)
+        if w:
+            out.append("  { %s ow(9), od(9); chk(\"%s operator[]\", %s(&ow, 6) == od[6]); }" % (cn, cn, w["name"]))
+        w = first("typecast int", lambda w: w["params"] and w["params"][0].startswith(cn + " "))
+        if w:
+            out.append("  { %s ow(9), od(9); chk(\"%s typecast to int\", %s(&ow) == (int)od); }" % (cn, cn, w["name"]))
+        inner = "%s::Inner%d" % (cn, c["index"])
+        w1, w2 = first("%s::Inner%d" % (inner, c["index"]), lambda w: w["params"] == ["int param0"]), first(inner + "::twice")
+        if w1 and w2:
+            out.append("  { %s *h = %s(21); %s d(21); chk(\"%s nested class\", h != nullptr && %s(h) == d.twice()); delete h; }" % (inner, w1["name"], inner, cn, w2["name"]))
+        w1, w2, w3 = first("%s::make_box" % cn), first("%s::read_box" % cn), first("Box< int >::get")
+        if w1 and w2 and w3:
+            out.append("  { %s ow(9), od(9); BoxI *bw = %s(&ow, 30); BoxI bd = od.make_box(30); chk(\"%s typedef'd template result\", bw != nullptr && %s(bw) == bd.get()); chk(\"%s typedef'd template argument\", %s(&ow, bw) == od.read_box(bd)); delete bw; }"
+                       % (cn, w1["name"], cn, w3["name"], cn, w2["name"]))
+        w1, w2, w3 = first("%s::make_pt" % cn), first("%s::read_pt" % cn), first("geo::Pt::norm")
+        if w1 and w2 and w3:
+            out.append("  { %s ow(9), od(9); geo::Pt *pw2 = %s(&ow, 12); geo::Pt pd2 = od.make_pt(12); chk(\"%s namespace class result\", pw2 != nullptr && %s(pw2) == pd2.norm()); chk(\"%s namespace class argument\", %s(&ow, pw2) == od.read_pt(pd2)); delete pw2; }"
+                       % (cn, w1["name"], cn, w3["name"], cn, w2["name"]))
+        w = first("%s::pubonly%d" % (cn, c["index"]))
+        if w:
+            out.append("  { %s ow(9), od(9); size_t mark = g_trace.size(); chk(\"%s public-only method (-promiscuous)\", %s(&ow, 8) == od.pubonly%d(8) && ow._s == od._s); trace_pair(\"%s pubonly trace\", mark); }" % (cn, cn, w["name"], c["index"], cn))
+        elif promiscuous:
+            out.append("  chk(\"%s::pubonly%d has a wrapper under -promiscuous\", false);" % (cn, c["index"]))
         # labels of different objects, in a row (each call returns the value produced by that call)
         if string_mode:
             ws = [w for w in by_scoped.get("%s::label" % c["name"], [])]
@@ -271,6 +336,27 @@ def gen_driver(lib, wrappers, rng, string_mode=False):
                 out.append("  { %s o1(11), o2(22), o3(33);" % c["name"])
                 out.append("    std::string l1 = %s(&o1); std::string l2 = %s(&o2); std::string l3 = %s(&o3);" % (ws[0]["name"], ws[0]["name"], ws[0]["name"]))
                 out.append('    chk("%s::label of three objects", l1 == o1.label() && l2 == o2.label() && l3 == o3.label()); }' % c["name"])
+    # multiple inheritance: the cast wrappers adjust the pointer, and methods reached through them dispatch virtually
+    if lib.get("multi"):
+        base = lib["multi"]["base"]
+        up_s = [w for w in by_scoped.get("Multi::upcast_to_Side", [])]
+        up_b = [w for w in by_scoped.get("Multi::upcast_to_%s" % base, [])]
+        down_s = [w for w in by_scoped.get("Side::downcast_to_Multi", [])]
+        sv = [w for w in by_scoped.get("Side::side_val", [])]
+        both = [w for w in by_scoped.get("Multi::both", [])]
+        if up_s and up_b:
+            out.append("  { Multi ow(6), od(6);")
+            out.append("    Side *ps = %s(&ow); %s *pb = %s(&ow);" % (up_s[0]["name"], base, up_b[0]["name"]))
+            out.append('    chk("Multi upcast wrappers adjust the pointer", ps == static_cast<Side *>(&ow) && pb == static_cast<%s *>(&ow) && (void *)ps != (void *)pb);' % base)
+            if down_s:
+                out.append('    chk("Side downcast wrapper", %s(ps) == &ow);' % down_s[0]["name"])
+            if sv:
+                out.append('    chk("virtual method through the second base", %s(ps) == static_cast<Side *>(&od)->side_val());' % sv[0]["name"])
+            if both:
+                out.append('    chk("Multi method using both sub-objects", %s(&ow) == od.both());' % both[0]["name"])
+            out.append("  }")
+        else:
+            out.append('  chk("Multi has upcast wrappers", false);')
     for m in lib["frees"]:
         for w in by_scoped.get(m.name, []):
             arity = len(w["params"])
